@@ -8,6 +8,8 @@ scattered to the global index  offset(field) + dim(field) * point + component.
 """
 import numpy as np
 
+from .kernel import Discard
+
 
 class Space:
     """Generalised basis of one field for one kind (value / gradient)."""
@@ -128,3 +130,107 @@ def assemble_bilinear(fields_v, fields_u, dV, funs, grad_v, grad_u, pairs, symme
         if symmetric_fill and i != j:
             np.add.at(K, (c.ravel(), r.ravel()), val.ravel())
     return K
+
+
+# ----------------------------------------------------------------------------------------
+# analytic homogeneous solutions from independently written energy functions
+# ----------------------------------------------------------------------------------------
+def energy(spec):
+    """Strain energy W(l1, l2, l3) in principal stretches for the materials the homogeneous
+    scenarios use (independently coded from the textbook forms; never felupe's stress code)."""
+    name, p = spec["name"], spec["p"]
+
+    def iso(l1, l2, l3):
+        J = l1 * l2 * l3
+        I1 = l1**2 + l2**2 + l3**2
+        I2 = (l1 * l2) ** 2 + (l2 * l3) ** 2 + (l1 * l3) ** 2
+        return J, I1, I2, J ** (-2 / 3) * I1, J ** (-4 / 3) * I2
+
+    def vol(J, bulk):
+        return 0.0 if bulk is None else bulk * (J - 1) ** 2 / 2
+
+    if name == "NeoHooke":
+        return lambda a, b, c: p["mu"] / 2 * (iso(a, b, c)[3] - 3) + vol(a * b * c, p.get("bulk"))
+    if name == "NeoHookeCompressible":
+        return lambda a, b, c: p["mu"] / 2 * (a * a + b * b + c * c - 3) - p["mu"] * np.log(a * b * c) + p["lmbda"] / 2 * np.log(a * b * c) ** 2
+    if name == "AD:neo_hooke":
+        return lambda a, b, c: p["mu"] / 2 * (iso(a, b, c)[3] - 3) + vol(a * b * c, p.get("bulk"))
+    if name == "AD:mooney_rivlin":
+        return lambda a, b, c: p["C10"] * (iso(a, b, c)[3] - 3) + p["C01"] * (iso(a, b, c)[4] - 3) + vol(a * b * c, p.get("bulk"))
+    if name == "AD:yeoh":
+        return lambda a, b, c: sum(p[k] * (iso(a, b, c)[3] - 3) ** n for k, n in (("C10", 1), ("C20", 2), ("C30", 3))) + vol(a * b * c, p.get("bulk"))
+    if name == "AD:ogden":
+
+        def W(a, b, c):
+            J = a * b * c
+            s = [x * J ** (-1 / 3) for x in (a, b, c)]
+            w = 0.0
+            for m, al in zip(p["mu"], p["alpha"]):
+                w = w + 2 * m / al**2 * (s[0] ** al + s[1] ** al + s[2] ** al - 3)
+            return w + vol(J, p.get("bulk"))
+
+        return W
+    if name == "AD:saint_venant_kirchhoff":
+
+        def W(a, b, c):
+            E = [(x * x - 1) / 2 for x in (a, b, c)]
+            return p["mu"] * sum(e * e for e in E) + p["lmbda"] / 2 * sum(E) ** 2
+
+        return W
+    raise KeyError(name)
+
+
+def dW(W, l, k, h=1e-6):
+    lp = list(l)
+    lm = list(l)
+    lp[k] += h
+    lm[k] -= h
+    return (W(*lp) - W(*lm)) / (2 * h)
+
+
+def homogeneous(spec, case, lam, planestrain=False):
+    """Principal stretches and first Piola-Kirchhoff stresses of the homogeneous solution.
+    case 'uniaxial': l1 = lam[0], traction-free lateral directions;
+    case 'biaxial' : l1, l2 = lam, traction-free third direction (plane strain: l3 = 1)."""
+    from scipy.optimize import brentq as _brentq
+
+    def brentq(f, lo, hi, a0=1.0, **kw):
+        # the physically relevant root is the one next to the isochoric guess a0: scan a
+        # grid around a0 and take the sign change closest to it
+        grid = a0 * np.exp(np.linspace(np.log(0.3), np.log(3.0), 241))
+        vals = np.array([f(x) for x in grid])
+        idx = [k for k in range(len(grid) - 1) if np.isfinite(vals[k]) and np.isfinite(vals[k + 1]) and vals[k] * vals[k + 1] <= 0]
+        if not idx:
+            raise Discard("analytic-model-has-no-solution")
+        k = min(idx, key=lambda k: abs(np.log(grid[k] / a0)))
+        if vals[k] == 0:
+            return grid[k]
+        if vals[k + 1] == 0:
+            return grid[k + 1]
+        return _brentq(f, grid[k], grid[k + 1], **kw)
+
+    W = energy(spec)
+    if case == "uniaxial":
+        l1 = lam[0]
+        if planestrain:
+            f = lambda a: dW(W, (l1, a, 1.0), 1)
+            a = brentq(f, 0.2, 4.0, a0=1 / l1, xtol=1e-14, rtol=1e-14)
+            l = (l1, a, 1.0)
+        else:
+            f = lambda a: dW(lambda x, y, z: W(x, y, z), (l1, a, a), 1) + 0 * a
+            # with l2 = l3 = a the stationarity in a of W(l1, a, a) is P22 + P33 = 0 = 2 P22
+            g = lambda a: (W(l1, a + 1e-6, a + 1e-6) - W(l1, a - 1e-6, a - 1e-6)) / 2e-6
+            a = brentq(g, 0.2, 4.0, a0=l1**-0.5, xtol=1e-14, rtol=1e-14)
+            l = (l1, a, a)
+    elif case == "biaxial":
+        l1, l2 = lam
+        if planestrain:
+            l = (l1, l2, 1.0)
+        else:
+            g = lambda a: dW(W, (l1, l2, a), 2)
+            a = brentq(g, 0.2, 4.0, a0=1 / (l1 * l2), xtol=1e-14, rtol=1e-14)
+            l = (l1, l2, a)
+    else:
+        raise ValueError(case)
+    P = [dW(W, l, k) for k in range(3)]
+    return l, P
